@@ -18,6 +18,8 @@ pub enum Case {
     W1TwinPulse(W1Script),
     /// collections clients in one arena, mirrored by std collections
     W2(crate::w2_ops::W2Script),
+    /// a callback-taking operation with an injected panic at a chosen callback invocation
+    W3(crate::w3::W3Script),
 }
 
 #[derive(Clone, Debug, Serialize, Deserialize)]
@@ -161,6 +163,17 @@ pub fn run_case(case: &Case, ctx: &Ctx) -> CaseResult {
     }
     match case {
         Case::W2(s) => w2_result(crate::w2::exec_w2(s)),
+        Case::W3(s) => {
+            let rep = crate::w3::exec_w3(s);
+            CaseResult {
+                violations: rep.violations,
+                side: Vec::new(),
+                stats: rep.stats,
+                fp: rep.fp,
+                requests: rep.callbacks as u32,
+                request_sizes: Vec::new(),
+            }
+        }
         Case::W1(s) => {
             let rep = exec_w1(s, ExecOpts { focus: ctx.focus, ..Default::default() }, ctx.k);
             CaseResult {
